@@ -1,21 +1,81 @@
-from checks.generic import standard
+import os, re
+import core
+from checks.generic import COMMON_TRUSTED, compile_gen, first_index
+
+PROPS = ["c15_roundtrip", "c15_sync_mirror", "c15_sync_completes", "c15_mirror_reads", "c15_atomic",
+         "c15_restart_keeps_stores", "c15_restart_outage_reads", "c15_copier_turn", "c15_copier_lag", "c15_ghost_is_run",
+         "c15_outage_reads", "c15_outage_writes", "c15_dead_frozen", "c15_cleanup_invisible",
+         "c15_cleanup_purges", "c15_reads_unexpired", "c15_old_outage_reported_refuted", "c15_old_mirror_refuted",
+         "c15_old_atomic_refuted_cursor", "c15_old_atomic_refuted_eager", "c15_old_stale_writeback_refuted",
+         "c15_retry_reuses_cursors_refuted", "c15_restart_wipes_refuted"]
+
+CASES = [("c15_history_mismatches", "storage histories (statement-level faults of every kind, transient and standing; restarts of the daemon) on real SQLite = model run (results of every op, both stores after every synchronisation and every restart)", "CasesC15.idx"),
+         ("c15_handler_mismatches", "driven handler requests in every outage mode = model handler classes (what reaches the primary, cache untouched, served or refused)", "CasesC15h.idx"),
+         ("c15_restart_handler_mismatches", "second-factor checks and readers after a restart during an outage = model (Restart; Handler)", None)]
+
+# Model/Storage.v classify: the conclusion of the property's theorem evaluated on the observation of the
+# first step of a mismatching history
+VCLASS = {1: ("sync-reported-complete-not-mirror", "copyDBIntoSQLite returned nil and the cache is not the mirror of the primary (c15_sync_mirror, c15_atomic: success => the new content)"),
+          2: ("sync-mixture", "after a failed copyDBIntoSQLite the cache is neither its previous nor its new content (c15_atomic)"),
+          3: ("sync-reported-failed-new-content", "copyDBIntoSQLite returned an error although the cache holds the new content (c15_atomic: failure => the old content)"),
+          4: ("sync-does-not-complete", "an un-faulted copyDBIntoSQLite with a readable primary returned an error (c15_sync_completes)"),
+          5: ("sync-changed-primary", "copyDBIntoSQLite changed the primary (c15_atomic)"),
+          6: ("restart-changed-store", "a restart of the daemon on the same data directory changed a store (c15_restart_keeps_stores)"),
+          7: ("outage-read", "a read during an outage was not answered with the cache's content, flagged fromCache (c15_outage_reads)")}
+
+TRUSTED = ["SQLite (mattn/go-sqlite3) transaction semantics: statements inside a transaction become durable together at COMMIT, a rolled-back transaction leaves the previous content — exercised with a fault at every statement, not proved",
+           "the wrapping database/sql driver (harness/kmd/faultdb.go) numbers Query/Exec/Prepare/Begin/Commit/rows.Next calls in program order and fails the k-th (or every one from the k-th on) with an error value of the chosen kind (generic, sqlite3.Error{SQLITE_BUSY}, sqlite3.Error{SQLITE_LOCKED}, driver.ErrBadConn, context.DeadlineExceeded); the model's statement list is compared with it through the fault index; Rollback and Close calls are never failed",
+           "database/sql's own repetition of DB.Query / DB.Begin / Stmt.Exec on driver.ErrBadConn is part of the model (st_retried); it is what the real database/sql of the toolchain does in the runs, not proved about it",
+           "outages of the primary are simulated: hang = remoteDBQueryTimeout 0 (as the project's own cache test), closed pool = closed *sql.DB, fail-fast at prepare / query / row fetch = the wrapping driver failing every read of the primary file at that stage (with and without the other statements failing too) under a 20 ms read deadline; PostgreSQL is not available offline",
+           "a restart of the daemon = a second RuntimeState from loadVerifyConfigFile / initDB on the same data directory, the first one's handles closed, its background copier stopped; the process boundary itself (exit, exec) is not crossed",
+           "software U2F token (harness/kmd/vdevice.go) for registrations and WebAuthn assertions"]
+
+UNPROVED = ["the gob encoding round trip of userProfile (U2F registrations, WebAuthn credentials, TOTP secrets, bootstrap OTP, pending data) is property-tested through the real Save/Load and the cache, not proved",
+            "which handler belongs to which model class is established by driving it (20 requests); handlers that need a WebAuthn attestation (RegisterFinish) or e-mail (self-service bootstrap OTP) are only probed generically"]
+
 
 def run(ctx):
-    return standard(ctx,
-        props=[("Props.C15", ["c15_roundtrip", "c15_sync_mirror", "c15_sync_completes", "c15_mirror_reads", "c15_atomic",
-                              "c15_outage_reads", "c15_outage_writes", "c15_dead_frozen", "c15_cleanup_invisible",
-                              "c15_cleanup_purges", "c15_reads_unexpired", "c15_old_outage_reported_refuted", "c15_old_mirror_refuted", "c15_old_atomic_refuted_cursor",
-                              "c15_old_atomic_refuted_eager", "c15_old_stale_writeback_refuted"])],
-        harness=("TestVerif_C15", ["kmd/common.go", "kmd/creds.go", "kmd/faultdb.go", "kmd/vdevice.go", "kmd/storeenv.go", "kmd/c15.go"]),
-        cases=("CasesC15.v", [("c15_history_mismatches", "storage histories with statement-level faults on real SQLite = model run (results of every op, both stores after every synchronisation)"),
-                              ("c15_handler_mismatches", "driven handler requests in up/slow/dead mode = model handler classes (what reaches the primary, cache untouched, served or refused)")],
-               "CasesC15.idx"),
-        trusted=["SQLite (mattn/go-sqlite3) transaction semantics: statements inside a transaction become durable together at COMMIT, a rolled-back transaction leaves the previous content — exercised with a fault at every statement, not proved",
-                 "the wrapping database/sql driver (harness/kmd/faultdb.go) numbers Query/Exec/Prepare/Begin/Commit/rows.Next calls in program order; the model's statement list is compared with it through the fault index",
-                 "outages of the primary are simulated: hang = remoteDBQueryTimeout 0 (as the project's own cache test), closed pool = closed *sql.DB, fail-fast at prepare / query / row fetch = the wrapping driver failing every read of the primary file at that stage (with and without the other statements failing too) under a 20 ms read deadline; PostgreSQL is not available offline",
-                 "software U2F token (harness/kmd/vdevice.go) for registrations and WebAuthn assertions"],
-        assumptions=["the source tables are read as one snapshot each (no concurrent writer during a copy)",
-                     "expiry decisions compare with the harness's clock reading; generated expiries stay >= 15 min away from now except in the one scenario aligned to the second"],
-        unproved=["the gob encoding round trip of userProfile (U2F registrations, WebAuthn credentials, TOTP secrets, bootstrap OTP, pending data) is property-tested through the real Save/Load and the cache, not proved",
-                  "which handler belongs to which model class is established by driving it (20 requests); handlers that need a WebAuthn attestation (RegisterFinish) or e-mail (self-service bootstrap OTP) are only probed generically"],
-        timeout=1500)
+    ctx.audit("Props.C15", PROPS)
+    ctx.extract()
+    files = ["kmd/common.go", "kmd/creds.go", "kmd/faultdb.go", "kmd/vdevice.go", "kmd/storeenv.go", "kmd/c15.go",
+             os.path.join(ctx.work, "gen", "mux_gen.go")]
+    ok, result, log = ctx.go_harness("cmd/keymasterd", "TestVerif_C15", files, timeout=1500)
+    compile_gen(ctx, ("Routes.v", "Tables.v", "Consts.v"))
+    if result is not None:
+        res = ctx.eval_cases(os.path.join(ctx.work, "CasesC15.v"), "CasesC15.v")
+        if res is not None:
+            n = res.get("c15_ncases", "?")
+            for name, label, idxfile in CASES:
+                mism = res.get(name)
+                if mism == "[]":
+                    ctx.obligations.append(("corr:%s (%s cases in file)" % (label, n), True, "no mismatch"))
+                    continue
+                ctx.obligations.append(("corr:" + label, False, "mismatch indices %s" % (mism or "missing")[:200]))
+                first = None
+                i = first_index(mism)
+                lines = []
+                if idxfile and os.path.exists(os.path.join(ctx.work, idxfile)):
+                    lines = open(os.path.join(ctx.work, idxfile)).read().split("\n")
+                if i is not None and i < len(lines):
+                    first = lines[i]
+                ctx.broken.append(("correspondence", name, {"label": label, "first_mismatch": first, "indices": (mism or "")[:400]}))
+            # round 2: a mismatching history on which the OBSERVATION violates the property is a failing input
+            viol = res.get("c15_violating") or "[]"
+            lines = []
+            p = os.path.join(ctx.work, "CasesC15.idx")
+            if os.path.exists(p):
+                lines = open(p).read().split("\n")
+            seen = set()
+            for m in re.finditer(r"\((\d+),\s*(\d+)\)", viol):
+                i, v = int(m.group(1)), int(m.group(2))
+                cls, what = VCLASS.get(v, ("class-%d" % v, "the observation violates the property"))
+                if cls in seen:
+                    continue
+                seen.add(cls)
+                ctx.hits.append({"key": "C15:model-oracle:" + cls, "oracle": "the conclusion of the property's theorem evaluated (inside Coq) on the observed step of a history that leaves the model",
+                                 "what": what, "case": {"history": lines[i] if i < len(lines) else None, "case_index": i},
+                                 "observed": {"class": cls}})
+    ctx.assumptions = ["the source tables are read as one snapshot each (no concurrent writer during a copy)",
+                       "expiry decisions compare with the harness's clock reading; generated expiries stay >= 15 min away from now except in the one scenario aligned to the second"]
+    return ctx.finish("bin/build-coq; coqc Audit_*/Cases* (lib/core.py); go test -overlay TestVerif_C15",
+                      COMMON_TRUSTED + TRUSTED, UNPROVED)
